@@ -220,8 +220,8 @@ CLAIMED = {
   "exhausted, strict consumption), unmarshal_alloc_bounded (no size field is allocated before the bytes it announces are present), unmarshal_rejects_truncated, refactor_preserves_consts (Model.Refactor: RefactorCodeConsts keeps "
   "every instruction's constant up to renumbering). Observational equivalence of f and load(string.dump(f)) (results, errors with line "
   "info), re-dump equality and determinism are checked by execution only (correspondence), on generated chunks x 7 argument tuples.",
-  "Trusted: Lean kernel; the VM (the loaded function is run, not modelled); budgets not modelled; strip=true is ignored by golua and not "
-  "exercised. The five defects found (allocation before validation, negative upvalue count, truncated string accepted, blanket recover, wrong error variable in dump) are repaired; no finding left.", "6/C13, 14/C13"),
+  "Trusted: Lean kernel; the VM (the loaded function is run, not modelled); budgets not modelled; string.dump's strip argument is ignored by golua (TODO in dump.go); it is exercised in the operation sequences, whose invariants (bytes of the plain dump and error positions never change over the life of a function) "
+  "hold whether or not strip is honoured. The five defects found (allocation before validation, negative upvalue count, truncated string accepted, blanket recover, wrong error variable in dump) are repaired; no finding left.", "6/C13, 14/C13"),
  "C04": ("proof",
   "Lean 4 theorems over the REGENERATED opcode field encoders (92 functions of code/opcodes.go + instructions.go, Go->Lean on every run) and over a limit-check model fed by a regenerated panic-site table + crash search (source texts, size-parameterised templates in child processes, library calls) and limit correspondence",
   "Props/C04.lean (35 obligations): encode_decode_roundtrip_type0..7/4a/4b (every getter returns exactly the written argument when it is in range, whatever the other fields: round trip and no "
